@@ -29,7 +29,29 @@ def generate(L):
     test = r"ref_exists\(\s*repository\s*,\s*local_notes_ref\s*\)"
 
     # ---------------------------------------------------------------- push
-    p = L.find_fn(src, "push_authorship_notes", rel)
+    # the retry loop (when present): push_authorship_notes repeats push_authorship_notes_once while git
+    # reports the push as rejected, NOTES_PUSH_ATTEMPTS times in total
+    outer = L.find_fn(src, "push_authorship_notes", rel)
+    if "push_authorship_notes_once(" in outer:
+        m = re.search(r"const\s+NOTES_PUSH_ATTEMPTS\s*:\s*usize\s*=\s*(\d+)\s*;", L.strip_comments(src))
+        if not m:
+            raise L.GenError("push_authorship_notes: retry loop without `const NOTES_PUSH_ATTEMPTS: usize = N;`")
+        attempts = int(m.group(1))
+        if attempts < 1 or attempts > 16:
+            raise L.GenError("NOTES_PUSH_ATTEMPTS out of the range 1..16")
+        if not (re.search(r"\bloop\s*\{", outer) and re.search(r"attempt\s*<\s*NOTES_PUSH_ATTEMPTS\s*&&\s*is_rejected_push\(", outer)
+                and re.search(r"let\s+mut\s+attempt\s*=\s*1\s*;", outer) and re.search(r"attempt\s*\+=\s*1\s*;", outer)
+                and re.search(r"result\s*=>\s*return\s+result", outer)):
+            raise L.GenError("push_authorship_notes: retry loop shape not recognised")
+        rj = L.find_fn(src, "is_rejected_push", rel)
+        if '"[rejected]"' not in rj:
+            raise L.GenError("is_rejected_push: no longer tests git's [rejected] status")
+        p = L.find_fn(src, "push_authorship_notes_once", rel)
+        fname = "push_authorship_notes_once"
+    else:
+        attempts = 1
+        p = outer
+        fname = "push_authorship_notes"
     if not re.search(r'let\s+local_notes_ref\s*=\s*"refs/notes/ai"\s*;', p):
         raise L.GenError("push_authorship_notes: local_notes_ref is no longer \"refs/notes/ai\"")
     p_fetch = _one(p, r"exec_git\(\s*&fetch_before_push\s*\)", "exec_git(&fetch_before_push)", "push_authorship_notes")
@@ -82,4 +104,6 @@ def generate(L):
         "(* fetch_authorship_notes: the same two facts *)",
         "Definition fetch_test_before_fetch : bool := " + L.coq_bool(f_test < f_fetch) + ".",
         "Definition fetch_test_before_sync : bool := " + L.coq_bool(f_test < f_sync) + ".",
+        "(* how many times push_authorship_notes runs fetch; test; merge-or-copy; push while git rejects the push *)",
+        "Definition push_attempts : nat := " + str(attempts) + "%nat.",
     ])
